@@ -88,6 +88,10 @@ def make_case(rng, fmt, model, group=0):
             if model == "rr07x":
                 add("thermal", [pref + g], [g], marker="THERM", species=g)
         add("freeze", ["C+"], [pref + "C"], alpha=1.0, marker="FREEZE", species="C+", ion=True)     # ions freeze out as the neutral ice
+        if rng.random() < 0.6:
+            # anions carry the charged-particle factor like cations do
+            add("freeze", ["C-"], [pref + "C"], alpha=rng.choice([1.0, 0.5]), marker="FREEZE", species="C-", ion=True, ion_charge=-1)
+            add("freeze", ["H-"], [pref + "H"], alpha=1.0, marker="FREEZE", species="H-", ion=True, ion_charge=-1, ion_A=1)
         if not group:
             # electron freeze-out carries no ice species: naunet assigns it to grain group 0 (documented), which exists only in group-0 networks
             add("freeze", ["E-"], ["H"], alpha=1.0, marker="FREEZE", species="E-", electron=True)
@@ -294,7 +298,9 @@ def run_case(case, ctx):
                     if r.get("electron"):
                         spd = {"electron": True, "charge": -1, "A": 0}
                     elif r.get("ion"):
-                        spd = {"electron": False, "charge": 1, "A": 12}
+                        spd = {"electron": False, "charge": r.get("ion_charge", 1), "A": r.get("ion_A", 12)}
+                        if r.get("ion_charge", 1) < 0:
+                            obs["anion_freeze_rates"] += 1
                     else:
                         spd = dict(case["species"][r["species"]])
                     ref = grainlaws.rr07(kind, r, spd, env)
